@@ -312,7 +312,11 @@ fn format_string(input: String, options: GetOptsOptions) -> Result<i32> {
         config.set_cli().file_lines(options.file_lines);
     }
 
-    for f in config.file_lines().files() {
+    // (in a stable order: the selection is kept in a hash map)
+    let file_lines = config.file_lines();
+    let mut listed: Vec<_> = file_lines.files().collect();
+    listed.sort();
+    for f in listed {
         match *f {
             FileName::Stdin => {}
             _ => eprintln!("Warning: Extra file listed in file_lines option '{f}'"),
@@ -699,7 +703,10 @@ impl GetOptsOptions {
     }
 
     fn verify_file_lines(&self, files: &[PathBuf]) {
-        for f in self.file_lines.files() {
+        // (in a stable order: the selection is kept in a hash map)
+        let mut listed: Vec<_> = self.file_lines.files().collect();
+        listed.sort();
+        for f in listed {
             match *f {
                 FileName::Real(ref f) if files.contains(f) => {}
                 FileName::Real(_) => {
